@@ -26,6 +26,15 @@ fn wait_done(ack: &Arc<tinylfu_cached::cache::command::acknowledgement::CommandA
     }
 }
 
+#[derive(Clone)]
+struct Op { begin: u64, effective: u64, token: u64, applies: bool, is_delete: bool }
+
+fn record(log: &Mutex<Vec<Op>>, op: Op) {
+    let mut log = log.lock().unwrap();
+    if log.len() >= 1024 { log.drain(..512); }
+    log.push(op);
+}
+
 pub fn run(seed: u64, out: &str, millis: u64) -> bool {
     let mut sink = Sink::new(out);
     let mut all_ok = true;
@@ -45,16 +54,19 @@ pub fn run(seed: u64, out: &str, millis: u64) -> bool {
         let seq = Arc::new(AtomicU64::new(1));
         let keys = 3u64;
         // per token: (key, sequence number at which delete() of its incarnation returned; 0 = not deleted)
-        let deleted_at: Arc<Vec<AtomicU64>> = Arc::new((0..2_000_000).map(|_| AtomicU64::new(0)).collect());
-        let written_key: Arc<Vec<AtomicU64>> = Arc::new((0..2_000_000).map(|_| AtomicU64::new(u64::MAX)).collect());
+        let deleted_at: Arc<Vec<AtomicU64>> = Arc::new((0..(millis as usize * 2500).max(2_000_000)).map(|_| AtomicU64::new(0)).collect());
+        let written_key: Arc<Vec<AtomicU64>> = Arc::new((0..(millis as usize * 2500).max(2_000_000)).map(|_| AtomicU64::new(u64::MAX)).collect());
         let next_token = Arc::new(AtomicU64::new(1 + seed % 7));
+        // per key: the recent writes and deletes with the sequence numbers at which each call began and became
+        // effective (a put / upsert: its acknowledgement completed; a delete: the call returned)
+        let logs: Arc<Vec<Mutex<Vec<Op>>>> = Arc::new((0..keys).map(|_| Mutex::new(Vec::new())).collect());
         let violations: Arc<Mutex<Vec<String>>> = Arc::new(Mutex::new(Vec::new()));
         let worst_total = Arc::new(AtomicI64::new(0));
         let least_total = Arc::new(AtomicI64::new(0));
         let mut threads = Vec::new();
         // writers: put (awaited), then delete; record when delete() returned
         for writer in 0..2u64 {
-            let (cache, stop, seq, deleted_at, written_key, next_token, violations) = (cache.clone(), stop.clone(), seq.clone(), deleted_at.clone(), written_key.clone(), next_token.clone(), violations.clone());
+            let (cache, stop, seq, deleted_at, written_key, next_token, violations, logs) = (cache.clone(), stop.clone(), seq.clone(), deleted_at.clone(), written_key.clone(), next_token.clone(), violations.clone(), logs.clone());
             threads.push(std::thread::spawn(move || {
                 let mut round = 0u64;
                 while !stop.load(Ordering::Relaxed) {
@@ -63,15 +75,19 @@ pub fn run(seed: u64, out: &str, millis: u64) -> bool {
                     let token = next_token.fetch_add(1, Ordering::SeqCst);
                     if token as usize >= written_key.len() { break; }
                     written_key[token as usize].store(key, Ordering::SeqCst);
+                    let began = seq.fetch_add(1, Ordering::SeqCst);
                     let status = match cache.put(key, token) { Ok(ack) => wait_done(&ack), Err(_) => break };
                     if status == CommandStatus::Pending { violations.lock().unwrap().push(format!("C12/never-resolved put({},{})", key, token)); break; }
+                    record(&logs[key as usize], Op { begin: began, effective: seq.fetch_add(1, Ordering::SeqCst), token, applies: status == CommandStatus::Accepted, is_delete: false });
                     if status != CommandStatus::Accepted { continue; }
                     if round % 3 == 0 { std::thread::yield_now(); }
+                    let delete_began = seq.fetch_add(1, Ordering::SeqCst);
                     match cache.delete(key) {
                         Ok(ack) => {
                             // delete() has returned: from now on no read may return a value of an incarnation that was acknowledged before
                             let now = seq.fetch_add(1, Ordering::SeqCst);
                             deleted_at[token as usize].store(now, Ordering::SeqCst);
+                            record(&logs[key as usize], Op { begin: delete_began, effective: now, token: 0, applies: true, is_delete: true });
                             let status = wait_done(&ack);
                             if status == CommandStatus::Pending { violations.lock().unwrap().push(format!("C12/never-resolved delete({})", key)); break; }
                         }
@@ -82,7 +98,7 @@ pub fn run(seed: u64, out: &str, millis: u64) -> bool {
         }
         // readers: every value read must belong to the key, and must not be of an incarnation whose delete() had returned before the read began
         for reader in 0..3u64 {
-            let (cache, stop, seq, deleted_at, written_key, violations) = (cache.clone(), stop.clone(), seq.clone(), deleted_at.clone(), written_key.clone(), violations.clone());
+            let (cache, stop, seq, deleted_at, written_key, violations, logs) = (cache.clone(), stop.clone(), seq.clone(), deleted_at.clone(), written_key.clone(), violations.clone(), logs.clone());
             threads.push(std::thread::spawn(move || {
                 let mut n = 0u64;
                 while !stop.load(Ordering::Relaxed) {
@@ -102,7 +118,42 @@ pub fn run(seed: u64, out: &str, millis: u64) -> bool {
                         if deleted != 0 && deleted < started {
                             violations.lock().unwrap().push(format!("C04/read-after-delete get({}) returned token {} although delete() of that incarnation had returned at {} and the read began at {}", key, token, deleted, started));
                         }
+                        // regularity over the per-key log: the value read was completely written (acknowledged) at `done`; a
+                        // write or delete of the key that BEGAN after that and was effective before this read began supersedes it
+                        let superseded_by = {
+                            let log = logs[key as usize].lock().unwrap();
+                            log.iter().rev().take(256).find(|op| op.token == token && !op.is_delete).map(|own| own.effective).and_then(|done|
+                                log.iter().rev().take(64).find(|op| op.begin > done && op.effective < started && op.applies && op.token != token).cloned())
+                        };
+                        if let Some(later) = superseded_by {
+                            if later.is_delete {
+                                violations.lock().unwrap().push(format!("C04/read-after-delete get({}) returned token {} although a delete() of the key began at {} (after that value was acknowledged) and had returned at {}, before the read began at {}", key, token, later.begin, later.effective, started));
+                            } else {
+                                violations.lock().unwrap().push(format!("C02/superseded-value-read get({}) returned token {} although token {} was written to the key by a call that began at {} (after the first was acknowledged) and was acknowledged as accepted at {}, before the read began at {}", key, token, later.token, later.begin, later.effective, started));
+                            }
+                        }
                     }
+                }
+            }));
+        }
+        // upserters: put_or_update with a fresh value on the same few keys (in-place updates racing the writers' deletes,
+        // the readers and each other)
+        for upserter in 0..2u64 {
+            let (cache, stop, seq, written_key, next_token, violations, logs) = (cache.clone(), stop.clone(), seq.clone(), written_key.clone(), next_token.clone(), violations.clone(), logs.clone());
+            threads.push(std::thread::spawn(move || {
+                let mut n = 0u64;
+                while !stop.load(Ordering::Relaxed) {
+                    n += 1;
+                    let key = (upserter * 2 + n) % keys;
+                    let token = next_token.fetch_add(1, Ordering::SeqCst);
+                    if token as usize >= written_key.len() { break; }
+                    written_key[token as usize].store(key, Ordering::SeqCst);
+                    let began = seq.fetch_add(1, Ordering::SeqCst);
+                    let request = tinylfu_cached::cache::put_or_update::PutOrUpdateRequestBuilder::new(key).value(token).build();
+                    let status = match cache.put_or_update(request) { Ok(ack) => wait_done(&ack), Err(_) => break };
+                    if status == CommandStatus::Pending { violations.lock().unwrap().push(format!("C12/never-resolved put_or_update({},{})", key, token)); break; }
+                    record(&logs[key as usize], Op { begin: began, effective: seq.fetch_add(1, Ordering::SeqCst), token, applies: status == CommandStatus::Accepted, is_delete: false });
+                    if n % 4 == 0 { std::thread::sleep(Duration::from_micros(30)); }
                 }
             }));
         }
